@@ -99,7 +99,7 @@ Definition funcs_ok (r : registry) : Prop :=
   forall d m, In d (r_impls r) -> In m (i_methods d) ->
     alookup (method_key (i_type d) (m_name m)) (r_funcs r) = Some m.
 Definition funcs_sound (r : registry) : Prop :=
-  forall t n m, no_colon t = true -> alookup (method_key t n) (r_funcs r) = Some m ->
+  forall t n m, alookup (method_key t n) (r_funcs r) = Some m ->
     exists d, In d (r_impls r) /\ i_type d = t /\ In m (i_methods d) /\ m_name m = n.
 
 Lemma register_impl_inv : forall r d r', wf_impl d -> wf_impls (r_impls r) ->
@@ -123,11 +123,12 @@ Proof.
         -- apply method_key_not_iface_key; try assumption.
            rewrite Forall_forall in Wn. apply Wn. apply in_map; assumption.
     + unfold add_funcs. apply add_new; assumption.
-  - intros t n m Ht H. simpl in *. unfold add_funcs in H.
+  - intros t n m H. simpl in *. unfold add_funcs in H.
     apply add_inv in H as [H|[H1 [H2|H2]]].
-    + destruct (SD t n m Ht H) as [d' [A [B [C D]]]]. exists d'. split; [apply in_or_app; auto|auto].
-    + apply method_key_inj in H2 as [-> ->]; try assumption.
-      exists d. split; [apply in_or_app; right; left; reflexivity|auto].
+    + destruct (SD t n m H) as [d' [A [B [C D]]]]. exists d'. split; [apply in_or_app; auto|auto].
+    + apply method_key_inj_r in H2 as [-> ->]; try assumption.
+      * exists d. split; [apply in_or_app; right; left; reflexivity|auto].
+      * rewrite Forall_forall in Wn. apply Wn. apply in_map; assumption.
     + exfalso. revert H2. apply method_key_not_iface_key; try assumption.
       rewrite Forall_forall in Wn. apply Wn. apply in_map; assumption.
 Qed.
@@ -151,7 +152,7 @@ Proof.
 Qed.
 
 Lemma empty_ok : funcs_ok empty_registry /\ funcs_sound empty_registry /\ wf_impls (r_impls empty_registry).
-Proof. split; [intros d m []|split; [intros t n m _ H; discriminate|constructor]]. Qed.
+Proof. split; [intros d m []|split; [intros t n m H; discriminate|constructor]]. Qed.
 
 (* THE dispatch fact: after a successful registration of ds (any order), looking up T::m yields the
    method m of the impl block d for every block d of ds and every method of d *)
@@ -166,10 +167,10 @@ Qed.
 
 (* and nothing else is found: a hit for T::n is a method named n of some block for T *)
 Theorem dispatch_sound_l : forall ds r t n m, wf_impls ds -> register_all empty_registry ds = inl r ->
-  no_colon t = true -> alookup (method_key t n) (r_funcs r) = Some m ->
+  alookup (method_key t n) (r_funcs r) = Some m ->
   exists d, In d ds /\ i_type d = t /\ In m (i_methods d) /\ m_name m = n.
 Proof.
-  intros ds r t n m W R Ht H. destruct empty_ok as [A [B C]].
+  intros ds r t n m W R H. destruct empty_ok as [A [B C]].
   destruct (register_all_inv _ _ _ W C A B R) as [_ [SD [I _]]]. simpl in I. rewrite <- I. eapply SD; eauto.
 Qed.
 
@@ -240,15 +241,15 @@ Qed.
 (* the function table answers every T::n lookup identically whatever the registration order *)
 Theorem dispatch_order_independent_l : forall ds ds' r r', Permutation ds ds' -> wf_impls ds ->
   register_all empty_registry ds = inl r -> register_all empty_registry ds' = inl r' ->
-  forall t n, no_colon t = true -> alookup (method_key t n) (r_funcs r') = alookup (method_key t n) (r_funcs r).
+  forall t n, alookup (method_key t n) (r_funcs r') = alookup (method_key t n) (r_funcs r).
 Proof.
-  intros ds ds' r r' P W R R' t n Ht.
+  intros ds ds' r r' P W R R' t n.
   assert (wf_impls ds') as W' by (eapply wf_impls_perm; eauto).
   destruct (alookup (method_key t n) (r_funcs r)) as [m|] eqn:A.
-  - destruct (dispatch_sound_l _ _ _ _ _ W R Ht A) as [d [Hd [<- [Hm <-]]]].
+  - destruct (dispatch_sound_l _ _ _ _ _ W R A) as [d [Hd [<- [Hm <-]]]].
     apply dispatch_registered_l with (ds := ds'); auto. eapply Permutation_in; eauto.
   - destruct (alookup (method_key t n) (r_funcs r')) as [m|] eqn:B; [|reflexivity].
-    destruct (dispatch_sound_l _ _ _ _ _ W' R' Ht B) as [d [Hd [<- [Hm <-]]]].
+    destruct (dispatch_sound_l _ _ _ _ _ W' R' B) as [d [Hd [<- [Hm <-]]]].
     assert (In d ds) as Hd' by (eapply Permutation_in; [apply Permutation_sym|]; eauto).
     rewrite (dispatch_registered_l ds r d m W R Hd' Hm) in A. discriminate.
 Qed.
